@@ -33,6 +33,7 @@ RULE = (
     "sampler type changed between two samplings into f."
 )
 RULE += " " + ('Further operations: new_instance (another Aspire object with its own, never fitted, supplied proposal takes over the file), sampling without a fit for supplied proposals, and sample steps interrupted by an exception at a generated likelihood call (the invariant is checked on the file the interrupted run leaves).')
+RULE += " " + ('fit and sample may also name a SECOND file explicitly (inside or outside a context on the first one); the invariant is checked on both files.')
 ASSUMPTIONS = [
     "kernel packages are harness doubles; N=12 particles, 1 kernel step, fixed 2-step schedule",
     "save_config=False is only generated when the file's configuration already names the sampler about to run (otherwise the "
@@ -61,8 +62,8 @@ def finish(state):
     return {"nontrivial": bool(state["refit_after_file_flow"] or changed), "labels": sorted(state["labels"])}
 
 
-def _f(state):
-    return os.path.join(state["dir"], "run.h5")
+def _f(state, which="f"):
+    return os.path.join(state["dir"], "run.h5" if which == "f" else "other.h5")
 
 
 def _callables(xp, state=None):
@@ -121,11 +122,15 @@ def _file_state(path):
 
 
 def _invariant(state, ctx, case, after):
+    for which in ("f", "g"):
+        _invariant_file(state, ctx, case, after + ("" if which == "f" else " [second file]"), _f(state, which))
+
+
+def _invariant_file(state, ctx, case, after, path):
     from aspire import Aspire
     from aspire.flows import get_flow_wrapper
     from aspire.utils import AspireFile
 
-    path = _f(state)
     fs = _file_state(path)
     if not fs or fs["ckpt"] is None:
         return
@@ -214,7 +219,9 @@ def apply(state, op, ctx, case):
     xp = state["xp"]
     fs0 = _file_state(path)
     if kind == "fit":
-        p = path if op["path"] == "f" else None
+        p = _f(state, op["path"]) if op["path"] in ("f", "g") else None
+        if op["path"] == "g":
+            state["labels"].add("second-file")
         if fs0 and fs0["has_flow"] and state["fitted"]:
             state["refit_after_file_flow"] = True
         kw = {"n_epochs": 1, "batch_size": 64} if state["flavour"] == "zuko" else {}
@@ -225,11 +232,14 @@ def apply(state, op, ctx, case):
         if not state["fitted"] and state["flavour"] != "analytic":
             return  # (a proposal supplied at construction can be sampled without a fit)
         in_auto = bool(state["stack"])
-        p = path if op["path"] == "f" else None
+        p = _f(state, op["path"]) if op["path"] in ("f", "g") else None
+        if op["path"] == "g":
+            state["labels"].add("second-file")
         target = p or (getattr(a, "_checkpoint_defaults", {}) or {}).get("path")
         save_cfg = op["save_config"]
         if not save_cfg:
-            cfg_type = (fs0 or {}).get("cfg", None)
+            fs_t = _file_state(str(target)) if target else fs0
+            cfg_type = (fs_t or {}).get("cfg", None)
             cfg_type = cfg_type.get("sampler_type") if cfg_type else None
             if cfg_type != op["sampler"]:
                 save_cfg = True  # see ASSUMPTIONS
@@ -294,12 +304,12 @@ def machine(tier, ctx, last):
             self.do({"op": "create", "flavour": flavour, "seed": seed})
 
         @precondition(lambda self: self.state["aspire"] is not None)
-        @rule(data=st.sampled_from(["A", "B"]), path=st.sampled_from([None, "f", "f"]), overwrite=st.sampled_from([False, False, True]))
+        @rule(data=st.sampled_from(["A", "B"]), path=st.sampled_from([None, "f", "f", "g"]), overwrite=st.sampled_from([False, False, True]))
         def fit(self, data, path, overwrite):
             self.do({"op": "fit", "data": data, "path": path, "overwrite": overwrite})
 
         @precondition(lambda self: self.state["fitted"] or (self.state["aspire"] is not None and self.state["flavour"] == "analytic"))
-        @rule(sampler=st.sampled_from(["importance", "smc", "smc", "emcee_smc"]), path=st.sampled_from([None, "f", "f"]),
+        @rule(sampler=st.sampled_from(["importance", "smc", "smc", "emcee_smc"]), path=st.sampled_from([None, "f", "f", "g"]),
               every=st.integers(1, 3), save_config=st.sampled_from([True, True, True, False]), seed=st.integers(0, 10**6),
               fault_at=st.one_of(st.none(), st.none(), st.integers(1, 9)))
         def sample(self, sampler, path, every, save_config, seed, fault_at):
